@@ -3,8 +3,10 @@ package main
 // C01: network engine lookup versus linear scan.
 
 import (
+	"archive/zip"
 	"encoding/json"
 	"fmt"
+	"io"
 	"math/rand"
 	"os"
 	"sort"
@@ -298,12 +300,32 @@ var cptTypes = map[string]rules.RequestType{"document": rules.TypeDocument, "scr
 	"websocket": rules.TypeWebsocket, "other": rules.TypeOther, "subdocument": rules.TypeSubdocument, "object": rules.TypeObject, "ping": rules.TypePing}
 
 func loadRequests(limit int, rnd *rand.Rand) ([]reqJSON, error) {
-	f, err := os.Open(repoDir() + "/testdata/requests.json")
-	if err != nil {
-		return nil, err
+	var rd io.Reader
+	if f, err := os.Open(repoDir() + "/testdata/requests.json"); err == nil {
+		defer f.Close()
+		rd = f
+	} else {
+		// the unpacked file is not tracked by git: read it from the archive that is
+		zr, zerr := zip.OpenReader(repoDir() + "/testdata/requests.json.zip")
+		if zerr != nil {
+			return nil, zerr
+		}
+		defer zr.Close()
+		for _, zf := range zr.File {
+			if strings.HasSuffix(zf.Name, "requests.json") {
+				rc, err := zf.Open()
+				if err != nil {
+					return nil, err
+				}
+				defer rc.Close()
+				rd = rc
+			}
+		}
+		if rd == nil {
+			return nil, fmt.Errorf("requests.json not found in the archive")
+		}
 	}
-	defer f.Close()
-	dec := json.NewDecoder(f)
+	dec := json.NewDecoder(rd)
 	var all []reqJSON
 	for dec.More() {
 		var r reqJSON
